@@ -90,6 +90,13 @@ class BufferedStream(object):
 
     def _readStream(self, bytes):
         data = self.stream.read(bytes)
+        # an unbuffered stream may return fewer bytes than asked for; the
+        # encoding sniffing (BOM, meta prescan) needs complete reads
+        while 0 < len(data) < bytes:
+            more = self.stream.read(bytes - len(data))
+            if not more:
+                break
+            data += more
         self.buffer.append(data)
         self.position[0] += 1
         self.position[1] = len(data)
